@@ -140,3 +140,79 @@ fn md_key_classification() {
     kani::cover!(want, "binary key");
     kani::cover!(!want && len >= 4, "ascii key of length >= 4");
 }
+
+// ---- M3 (read side): a peer's binary value decodes to the same bytes whether or not it is padded -------------------
+fn b64_val(c: u8) -> Option<u8> {
+    if c >= b'A' && c <= b'Z' {
+        Some(c - b'A')
+    } else if c >= b'a' && c <= b'z' {
+        Some(c - b'a' + 26)
+    } else if c >= b'0' && c <= b'9' {
+        Some(c - b'0' + 52)
+    } else if c == b'+' {
+        Some(62)
+    } else if c == b'/' {
+        Some(63)
+    } else {
+        None
+    }
+}
+
+/// K = number of significant base64 characters (2 or 3), PAD = number of '=' appended (0 or 4-K)
+fn bin_decode_case<const K: usize, const PAD: usize>() {
+    let c: [u8; 3] = kani::any();
+    let v0 = b64_val(c[0]);
+    let v1 = b64_val(c[1]);
+    let v2 = b64_val(c[2]);
+    kani::assume(v0.is_some() && v1.is_some() && v2.is_some());
+    let (a, b, d) = (v0.unwrap() as u32, v1.unwrap() as u32, v2.unwrap() as u32);
+    // canonical encodings only (trailing bits zero), which is what every encoder emits
+    if K == 2 {
+        kani::assume(b & 15 == 0);
+    } else {
+        kani::assume(d & 3 == 0);
+    }
+    let mut wire = [b'='; 4];
+    wire[0] = c[0];
+    wire[1] = c[1];
+    if K == 3 {
+        wire[2] = c[2];
+    }
+    let got = <Binary as Sealed>::decode(&wire[..K + PAD]);
+    match &got {
+        Ok(bytes) => {
+            assert!(bytes.len() == K - 1, "C08: binary metadata decoded to the wrong length");
+            assert!(bytes[0] == ((a << 2) | (b >> 4)) as u8, "C08: binary metadata decoded to different bytes");
+            if K == 3 {
+                assert!(bytes[1] == (((b & 15) << 4) | (d >> 2)) as u8, "C08: binary metadata decoded to different bytes");
+            }
+            kani::cover!(true, "decoded");
+        }
+        Err(_) => assert!(false, "C08: a peer's binary metadata value was rejected (padded and unpadded spellings must both be accepted)"),
+    }
+    core::mem::forget(got);
+}
+#[kani::proof]
+#[kani::unwind(8)]
+#[kani::stub(alloc::fmt::format, fmt_stub)]
+fn md_bin_decode_2_unpadded() {
+    bin_decode_case::<2, 0>()
+}
+#[kani::proof]
+#[kani::unwind(8)]
+#[kani::stub(alloc::fmt::format, fmt_stub)]
+fn md_bin_decode_2_padded() {
+    bin_decode_case::<2, 2>()
+}
+#[kani::proof]
+#[kani::unwind(8)]
+#[kani::stub(alloc::fmt::format, fmt_stub)]
+fn md_bin_decode_3_unpadded() {
+    bin_decode_case::<3, 0>()
+}
+#[kani::proof]
+#[kani::unwind(8)]
+#[kani::stub(alloc::fmt::format, fmt_stub)]
+fn md_bin_decode_3_padded() {
+    bin_decode_case::<3, 1>()
+}
